@@ -258,4 +258,683 @@ theorem wf_errState (o : Obj) : WF o.errState := by simp [WF, Obj.errState]
 @[simp] theorem blocks_zero (o : Obj) : o.zero.blocks = [o.self] := by simp [Obj.blocks, Obj.zero]
 @[simp] theorem blocks_errState (o : Obj) : o.errState.blocks = [o.self] := by simp [Obj.blocks, Obj.errState]
 
+/-! ## The flat view -/
+
+theorem classify_append (fail : Nat → Bool) : ∀ (a b : List Site) (c : Nat),
+    classify fail c (a ++ b) = match classify fail c a with
+      | .allOk => classify fail (c + a.length) b
+      | r => r
+  | [], b, c => by simp [classify]
+  | s :: a, b, c => by
+      by_cases hf : fail c = true
+      · cases hk : s.kind <;> simp [classify, hf, hk]
+      · have hf' : fail c = false := by simpa using hf
+        simp only [List.cons_append, classify, hf', Bool.false_eq_true, if_false, List.length_cons]
+        rw [classify_append fail a b (c + 1)]
+        have : c + 1 + a.length = c + (a.length + 1) := by omega
+        rw [this]
+
+/-! ## `initialise` -/
+
+/-- what `initialise` / its channel loop do, as decided by the first failing call -/
+def InitPost (o : Obj) (F : List Blk) (n : Nat) (h : Heap) (r : Res (Bool × Obj)) : Outcome → Prop
+  | .allOk => ∃ o' h', r = .ok (false, o') h' ∧ Owns o' h' F ∧ WF o' ∧ h'.count = h.count + n ∧
+      o'.self = o.self ∧ o'.error = false ∧ o'.numChannels = o.numChannels ∧ o'.channelPtrs ≠ none
+  | .errAt _ _ => ∃ h', r = .ok (true, o.errState) h' ∧ h'.live.Perm (o.self :: F)
+  | .crashAt _ s => r = .fault (.derefNull s.name)
+
+theorem initLoop_spec (fail : Nat → Bool) (rs sh cp : Blk) :
+    ∀ (todo : List (List Site)) (done : List Chan) (o : Obj) (h : Heap) (F : List Blk),
+    o.channelPtrs = some cp → o.shared = some sh → o.resamplers = some rs → o.error = false →
+    h.live.Perm (({ o with chans := done.map some } : Obj).blocks ++ F) →
+    (o.sharedOwn ≠ [] → done ≠ []) →
+    InitPost o F (loopSeq todo).length h (initLoop fail rs sh o done todo h) (classify fail h.count (loopSeq todo))
+  | [], done, o, h, F, hcp, hsh, hrs, herr, hp, hso => by
+      refine ⟨{ o with chans := done.map some }, h, by simp [initLoop], hp, ⟨by simp [hrs], ?_⟩, by simp [loopSeq],
+        rfl, herr, rfl, by simp [hcp]⟩
+      intro h0
+      cases done with
+      | nil => exact absurd rfl (hso h0)
+      | cons c _ => exact ⟨c, by simp⟩
+  | e :: todo, done, o, h, F, hcp, hsh, hrs, herr, hp, hso => by
+      simp only [Obj.blocks, hcp, hsh, hrs] at hp
+      have hrl : rs ∈ h.live := hp.mem_iff.mpr (by simp)
+      have hshl : sh ∈ h.live := hp.mem_iff.mpr (by simp)
+      by_cases hf : fail h.count = true
+      · -- the channel's calloc fails: fatal_error
+        have hcl : classify fail h.count (loopSeq (e :: todo)) = .errAt h.count siteChan := by
+          simp [loopSeq, classify, hf, siteChan]
+        rw [hcl]
+        let o2 : Obj := { o with chans := done.map some ++ none :: todo.map (fun _ => none) }
+        have wf2 : WF o2 := by
+          refine ⟨by simp [o2, hrs], ?_⟩
+          intro h0
+          cases done with
+          | nil => exact absurd rfl (hso h0)
+          | cons c _ => exact ⟨c, by simp [o2]⟩
+        have own2 : Owns o2 { h with count := h.count + 1 } F := by
+          simp only [Owns, Obj.blocks, o2, hcp, hsh, hrs, chansBlocks_append, chansBlocks_none, chansBlocks_map_none]
+          perm_count [hp]
+        obtain ⟨L, eL, pL⟩ := fatalError_spec o2 _ F wf2 own2
+        refine ⟨{ h with count := h.count + 1, live := L }, ?_, pL⟩
+        simp only [initLoop, bind_apply, derefLive_ok hrl, calloc_fail hf]
+        simp only [o2] at eL
+        rw [eL]
+        rfl
+      · have hf' : fail h.count = false := by simpa using hf
+        have hcl : classify fail h.count (loopSeq (e :: todo)) =
+            match classify fail (h.count + 1) e with
+            | .allOk => classify fail (h.count + 1 + e.length) (loopSeq todo)
+            | r => r := by
+          simp only [loopSeq, classify, hf', Bool.false_eq_true, if_false]
+          exact classify_append fail e (loopSeq todo) (h.count + 1)
+        rw [hcl]
+        let b := h.count
+        let h1 : Heap := { h with count := h.count + 1, live := b :: h.live }
+        let R : List Blk := b :: o.self :: (chansBlocks (done.map some) ++ rs :: cp :: sh :: F)
+        have hbl : b ∈ h1.live := by simp [h1]
+        have hshl1 : sh ∈ h1.live := by simp [h1, hshl]
+        have hp1 : h1.live.Perm (engBlocks { own := [], temps := [], sh := o.sharedOwn } ++ R) := by
+          simp only [engBlocks, h1, R]; perm_count [hp]
+        have hE : EngPost R e.length h1 (engCreate fail e { own := [], temps := [], sh := o.sharedOwn } h1)
+            (classify fail (h.count + 1) e) :=
+          engCreate_spec fail e { own := [], temps := [], sh := o.sharedOwn } h1 R hp1
+        have hstep : initLoop fail rs sh o done (e :: todo) h =
+            (match engCreate fail e { own := [], temps := [], sh := o.sharedOwn } h1 with
+             | .ok (err, st) h' =>
+                if err then
+                  (do let o' ← fatalError { o with sharedOwn := st.sh,
+                                                   chans := done.map some ++ some ({ blk := b, own := st.temps ++ st.own } : Chan) ::
+                                                     todo.map (fun _ => none) }
+                      pure (true, o')) h'
+                else initLoop fail rs sh { o with sharedOwn := st.sh } (done ++ [{ blk := b, own := st.temps ++ st.own }]) todo h'
+             | .fault f => .fault f) := by
+          have hb' : h.count ∈ (h.count :: h.live) := by simp
+          have hs' : sh ∈ (h.count :: h.live) := by simp [hshl]
+          simp only [initLoop, bind_apply, derefLive_ok hrl, calloc_ok hf']
+          simp only [derefLive, hb', hs', if_true, b, h1]
+          cases engCreate fail e { own := [], temps := [], sh := o.sharedOwn } h1 with
+          | fault f => rfl
+          | ok a h' =>
+            obtain ⟨err, st⟩ := a
+            cases err <;> rfl
+        rw [hstep]
+        cases hce : classify fail (h.count + 1) e <;> rw [hce] at hE
+        · -- this channel is created; on to the next
+          obtain ⟨st', h', e1, e2, e3, e4⟩ := hE
+          rw [e1]
+          simp only [Bool.false_eq_true, if_false, e2, List.nil_append]
+          let c : Chan := { blk := b, own := st'.own }
+          have hp' : h'.live.Perm (({ ({ o with sharedOwn := st'.sh } : Obj) with chans := (done ++ [c]).map some } : Obj).blocks ++ F) := by
+            simp only [Obj.blocks, hcp, hsh, hrs, List.map_append, List.map_cons, List.map_nil, chansBlocks_append,
+              chansBlocks_some, chansBlocks_nil, c]
+            simp only [engBlocks, e2, R] at e3
+            perm_count [e3]
+          have ih := initLoop_spec fail rs sh cp todo (done ++ [c]) { o with sharedOwn := st'.sh } h' F hcp hsh hrs herr hp'
+            (by simp)
+          have hc' : h'.count = h.count + 1 + e.length := by simpa using e4
+          rw [hc'] at ih
+          cases hct : classify fail (h.count + 1 + e.length) (loopSeq todo) <;> rw [hct] at ih
+          · obtain ⟨o'', h'', f1, f2, f3, f4, f5, f6, f7, f8⟩ := ih
+            exact ⟨o'', h'', f1, f2, f3, by simp [f4, hc', loopSeq]; omega, f5, f6, f7, f8⟩
+          · exact ih
+          · exact ih
+        · -- the engine returned an error string: fatal_error closes what exists
+          obtain ⟨st', h', e1, e3⟩ := hE
+          rw [e1]
+          simp only [if_true]
+          let o2 : Obj := { o with sharedOwn := st'.sh,
+                                   chans := done.map some ++ some ({ blk := b, own := st'.temps ++ st'.own } : Chan) ::
+                                     todo.map (fun _ => none) }
+          have wf2 : WF o2 :=
+            ⟨by simp [o2, hrs], fun _ => ⟨{ blk := b, own := st'.temps ++ st'.own }, by simp [o2]⟩⟩
+          have own2 : Owns o2 h' F := by
+            simp only [Owns, Obj.blocks, o2, hcp, hsh, hrs, chansBlocks_append, chansBlocks_some, chansBlocks_map_none]
+            simp only [engBlocks, R] at e3
+            perm_count [e3]
+          obtain ⟨L, eL, pL⟩ := fatalError_spec o2 h' F wf2 own2
+          refine ⟨{ h' with live := L }, ?_, pL⟩
+          simp only [o2] at eL
+          simp only [bind_apply, eL]
+          rfl
+        · -- an unchecked site of the engine dereferences its NULL
+          simp only [EngPost] at hE
+          rw [hE]
+          rfl
+
+theorem calloc_spec (fail : Nat → Bool) (h : Heap) :
+    calloc fail h = .ok (if fail h.count then none else some h.count)
+      { h with count := h.count + 1, live := (if fail h.count then none else some h.count).toList ++ h.live } := by
+  cases hf : fail h.count
+  · simp [calloc_ok hf]
+  · simp [calloc_fail hf]
+
+theorem fatal_path (o o1 : Obj) (h3 : Heap) (F : List Blk) (hs : o1.self = o.self) (wf : WF o1) (own : Owns o1 h3 F) :
+    ∃ h', (do let o' ← fatalError o1; pure (true, o')) h3 = .ok (true, o.errState) h' ∧ h'.live.Perm (o.self :: F) := by
+  obtain ⟨L, eL, pL⟩ := fatalError_spec o1 h3 F wf own
+  refine ⟨{ h3 with live := L }, ?_, hs ▸ pL⟩
+  simp [eL, Obj.errState, hs]
+
+/-- an object on which `initialise` may run: no error, nothing allocated yet -/
+def Fresh (o : Obj) : Prop :=
+  o.error = false ∧ o.channelPtrs = none ∧ o.shared = none ∧ o.resamplers = none ∧ o.sharedOwn = []
+
+theorem initialise_spec (fail : Nat → Bool) (o : Obj) (engs : List (List Site)) (h : Heap) (F : List Blk)
+    (fr : Fresh o) (hp : h.live.Perm (o.self :: F)) :
+    InitPost o F (initSeq engs).length h (initialise fail o engs h) (classify fail h.count (initSeq engs)) := by
+  obtain ⟨herr, -, -, -, hso⟩ := fr
+  have hself : o.self ∈ h.live := hp.mem_iff.mpr (by simp)
+  -- the three allocations are made unconditionally
+  let cp : Option Blk := if fail h.count then none else some h.count
+  let sh : Option Blk := if fail (h.count + 1) then none else some (h.count + 1)
+  let rs : Option Blk := if fail (h.count + 2) then none else some (h.count + 2)
+  let h3 : Heap := { h with count := h.count + 3, live := rs.toList ++ (sh.toList ++ (cp.toList ++ h.live)) }
+  let o1 : Obj := { o with channelPtrs := cp, shared := sh, resamplers := rs, chans := engs.map (fun _ => none) }
+  have hrun : initialise fail o engs h =
+      (match cp, sh, rs with
+       | some _, some s, some r => initLoop fail r s o1 [] engs
+       | _, _, _ => do let o' ← fatalError o1; pure (true, o')) h3 := by
+    simp only [initialise, bind_apply, derefLive_ok hself, calloc_spec]
+    rfl
+  have own1 : Owns o1 h3 F := by
+    simp only [Owns, Obj.blocks, o1, h3, hso, chansBlocks_map_none]
+    perm_count [hp]
+  rw [hrun]
+  cases h0 : fail h.count <;> cases h1 : fail (h.count + 1) <;> cases h2 : fail (h.count + 2)
+  · -- all three succeed: the channel loop
+    have hcl : classify fail h.count (initSeq engs) = classify fail (h.count + 3) (loopSeq engs) := by
+      simp [initSeq, classify, h0, h1, h2]
+    rw [hcl]
+    have hcp : cp = some h.count := by simp [cp, h0]
+    have hsh : sh = some (h.count + 1) := by simp [sh, h1]
+    have hrs : rs = some (h.count + 2) := by simp [rs, h2]
+    simp only [hcp, hsh, hrs]
+    have hp0 : h3.live.Perm (({ o1 with chans := ([] : List Chan).map some } : Obj).blocks ++ F) := by
+      simp only [Obj.blocks, o1, h3, hso, hcp, hsh, hrs, List.map_nil, chansBlocks_nil]
+      perm_count [hp]
+    have ih := initLoop_spec fail (h.count + 2) (h.count + 1) h.count engs [] o1 h3 F
+      (by simp [o1, hcp]) (by simp [o1, hsh]) (by simp [o1, hrs]) herr hp0 (by simp [o1, hso])
+    have hc3 : h3.count = h.count + 3 := rfl
+    rw [hc3] at ih
+    cases hct : classify fail (h.count + 3) (loopSeq engs) <;> rw [hct] at ih
+    · obtain ⟨o'', h'', f1, f2, f3, f4, f5, f6, f7, f8⟩ := ih
+      exact ⟨o'', h'', f1, f2, f3, by simp [f4, hc3, initSeq]; omega, f5, f6, f7, f8⟩
+    · exact ih
+    · exact ih
+  all_goals
+    have wf1 : WF o1 := by
+      refine ⟨fun _ => by simp [o1, hso], fun hne => absurd ?_ hne⟩
+      simp [o1, hso]
+    obtain ⟨h', e', p'⟩ := fatal_path o o1 h3 F rfl wf1 own1
+    have hm : (match cp, sh, rs with
+       | some _, some s, some r => initLoop fail r s o1 [] engs
+       | _, _, _ => do let o' ← fatalError o1; pure (true, o')) = (do let o' ← fatalError o1; pure (true, o')) := by
+      simp [cp, sh, rs, h0, h1, h2]
+    rw [hm]
+    have hcl : ∃ k s, classify fail h.count (initSeq engs) = .errAt k s := by
+      simp [initSeq, classify, h0, h1, h2, siteChannelPtrs, siteShared, siteResamplers]
+    obtain ⟨k, s, hks⟩ := hcl
+    rw [hks]
+    exact ⟨h', e', p'⟩
+
+/-! ## Facts about the classification -/
+
+def NoFail (fail : Nat → Bool) (a b : Nat) : Prop := ∀ k, a ≤ k → k < b → fail k = false
+
+theorem classify_allOk (fail : Nat → Bool) : ∀ (ss : List Site) (c : Nat),
+    classify fail c ss = .allOk → NoFail fail c (c + ss.length)
+  | [], c, _ => fun k h1 h2 => by simp at h2; omega
+  | s :: ss, c, hcl => by
+      by_cases hf : fail c = true
+      · cases hk : s.kind <;> simp [classify, hf, hk] at hcl
+      · have hf' : fail c = false := by simpa using hf
+        simp only [classify, hf', Bool.false_eq_true, if_false] at hcl
+        have ih := classify_allOk fail ss (c + 1) hcl
+        intro k h1 h2
+        by_cases hk : k = c
+        · exact hk ▸ hf'
+        · exact ih k (by omega) (by simp at h2; omega)
+
+/-- `errAt k s`: call `k` is the first failing one and `s`, the site it belongs to, is checked -/
+theorem classify_errAt (fail : Nat → Bool) : ∀ (ss : List Site) (c k : Nat) (s : Site),
+    classify fail c ss = .errAt k s →
+      s.kind = .checked ∧ fail k = true ∧ c ≤ k ∧ ss[k - c]? = some s ∧ NoFail fail c k
+  | [], c, k, s, hcl => by simp [classify] at hcl
+  | t :: ss, c, k, s, hcl => by
+      by_cases hf : fail c = true
+      · cases hk : t.kind
+        · simp only [classify, hf, hk, if_true, Outcome.errAt.injEq] at hcl
+          obtain ⟨rfl, rfl⟩ := hcl
+          exact ⟨hk, hf, Nat.le_refl _, by simp, fun j h1 h2 => by omega⟩
+        · simp [classify, hf, hk] at hcl
+      · have hf' : fail c = false := by simpa using hf
+        simp only [classify, hf', Bool.false_eq_true, if_false] at hcl
+        obtain ⟨a1, a2, a3, a4, a5⟩ := classify_errAt fail ss (c + 1) k s hcl
+        refine ⟨a1, a2, by omega, ?_, ?_⟩
+        · have : k - c = (k - (c + 1)) + 1 := by omega
+          rw [this]; simpa using a4
+        · intro j h1 h2
+          by_cases hj : j = c
+          · exact hj ▸ hf'
+          · exact a5 j (by omega) h2
+
+/-- `crashAt k s`: call `k` is the first failing one and `s`, the site it belongs to, is unchecked -/
+theorem classify_crashAt (fail : Nat → Bool) : ∀ (ss : List Site) (c k : Nat) (s : Site),
+    classify fail c ss = .crashAt k s →
+      s.kind = .unchecked ∧ fail k = true ∧ c ≤ k ∧ ss[k - c]? = some s ∧ NoFail fail c k
+  | [], c, k, s, hcl => by simp [classify] at hcl
+  | t :: ss, c, k, s, hcl => by
+      by_cases hf : fail c = true
+      · cases hk : t.kind
+        · simp [classify, hf, hk] at hcl
+        · simp only [classify, hf, hk, if_true, Outcome.crashAt.injEq] at hcl
+          obtain ⟨rfl, rfl⟩ := hcl
+          exact ⟨hk, hf, Nat.le_refl _, by simp, fun j h1 h2 => by omega⟩
+      · have hf' : fail c = false := by simpa using hf
+        simp only [classify, hf', Bool.false_eq_true, if_false] at hcl
+        obtain ⟨a1, a2, a3, a4, a5⟩ := classify_crashAt fail ss (c + 1) k s hcl
+        refine ⟨a1, a2, by omega, ?_, ?_⟩
+        · have : k - c = (k - (c + 1)) + 1 := by omega
+          rw [this]; simpa using a4
+        · intro j h1 h2
+          by_cases hj : j = c
+          · exact hj ▸ hf'
+          · exact a5 j (by omega) h2
+
+/-- under the single-failure oracle the outcome is read off the site at the failing index -/
+theorem classify_failAt : ∀ (ss : List Site) (c k : Nat),
+    classify (failAt (c + k)) c ss =
+      match ss[k]? with
+      | none => .allOk
+      | some s => match s.kind with
+        | .checked => .errAt (c + k) s
+        | .unchecked => .crashAt (c + k) s
+  | [], c, k => by simp [classify]
+  | s :: ss, c, 0 => by
+      cases hk : s.kind <;> simp [classify, failAt, hk]
+  | s :: ss, c, k + 1 => by
+      have hne : failAt (c + (k + 1)) c = false := by simp [failAt]
+      have ih := classify_failAt ss (c + 1) k
+      have e : c + 1 + k = c + (k + 1) := by omega
+      rw [e] at ih
+      simp only [classify, hne, Bool.false_eq_true, if_false, List.getElem?_cons_succ]
+      exact ih
+
+/-! ## `soxr_set_io_ratio`, `soxr_create`, `soxr_clear`, `soxr_process` -/
+
+/-- every reachable object: well-formed, and either wholly initialised or wholly not -/
+def Good (o : Obj) : Prop :=
+  WF o ∧ (o.channelPtrs = none → o.shared = none ∧ o.resamplers = none ∧ o.sharedOwn = [])
+
+theorem Good.blocks_of_none {o : Obj} (g : Good o) (hc : o.channelPtrs = none) : o.blocks = [o.self] := by
+  obtain ⟨h1, h2, h3⟩ := g.2 hc
+  obtain ⟨h4, -⟩ := g.1.1 h2
+  simp [Obj.blocks, hc, h1, h2, h3, h4]
+
+theorem good_zero (o : Obj) (n : Nat) : Good { o.zero with numChannels := n } := by
+  simp [Good, WF, Obj.zero]
+
+theorem good_errState (o : Obj) : Good o.errState := by simp [Good, WF, Obj.errState]
+
+theorem setIoRatio_fresh (fail : Nat → Bool) (o : Obj) (engs : List (List Site)) (h : Heap)
+    (fr : Fresh o) (hn : o.numChannels ≠ 0) (hself : o.self ∈ h.live) :
+    setIoRatio fail o engs h = initialise fail o engs h := by
+  simp [setIoRatio, derefLive_ok hself, fr.1, fr.2.1, hn]
+
+def CreatePost (F : List Blk) (n : Nat) (h : Heap) (r : Res (Option Obj)) : Outcome → Prop
+  | .allOk => ∃ o h', r = .ok (some o) h' ∧ Good o ∧ Owns o h' F ∧ h'.count = h.count + n ∧ o.error = false
+  | .errAt _ _ => ∃ h', r = .ok none h' ∧ h'.live.Perm F
+  | .crashAt _ s => r = .fault (.derefNull s.name)
+
+theorem create_spec (fail : Nat → Bool) (engs : List (List Site)) (init : Bool) (h : Heap) :
+    CreatePost h.live (createSeq engs init).length h (create fail engs init h)
+      (classify fail h.count (createSeq engs init)) := by
+  by_cases hf : fail h.count = true
+  · have hcl : classify fail h.count (createSeq engs init) = .errAt h.count siteCreate := by
+      simp [createSeq, classify, hf, siteCreate]
+    rw [hcl]
+    exact ⟨{ h with count := h.count + 1 }, by simp [create, calloc_fail hf], List.Perm.refl _⟩
+  · have hf' : fail h.count = false := by simpa using hf
+    obtain ⟨h1, hh1⟩ : ∃ h1 : Heap, h1 = { h with count := h.count + 1, live := h.count :: h.live } := ⟨_, rfl⟩
+    obtain ⟨o, ho⟩ : ∃ o : Obj, o = { self := h.count, numChannels := engs.length } := ⟨_, rfl⟩
+    have hb : o.self ∈ h1.live := by simp [hh1, ho]
+    have hfr : Fresh o := by simp [Fresh, ho]
+    have hb' : h.count ∈ (h.count :: h.live) := by simp
+    by_cases hi : engs.length ≠ 0 ∧ init = true
+    · have hcs : createSeq engs init = siteCreate :: initSeq engs := by simp only [createSeq, if_pos hi]
+      have hcl : classify fail h.count (createSeq engs init) = classify fail (h.count + 1) (initSeq engs) := by
+        simp [hcs, classify, hf']
+      rw [hcl]
+      have hrun : create fail engs init h =
+          (match initialise fail o engs h1 with
+           | .ok (err, o') h' => if err then (do delete o'; pure none) h' else .ok (some o') h'
+           | .fault f => .fault f) := by
+        simp only [create, bind_apply, calloc_ok hf', derefLive, hb', if_true, if_pos hi]
+        rw [← hh1, ← ho, setIoRatio_fresh fail o engs h1 hfr (by simpa [ho] using hi.1) hb]
+        cases initialise fail o engs h1 with
+        | fault f => rfl
+        | ok a h' =>
+          obtain ⟨err, o'⟩ := a
+          cases err <;> rfl
+      have hI : InitPost o h.live (initSeq engs).length h1 (initialise fail o engs h1)
+          (classify fail h1.count (initSeq engs)) :=
+        initialise_spec fail o engs h1 h.live hfr (by simp [hh1, ho])
+      have hc1 : h1.count = h.count + 1 := by simp [hh1]
+      rw [hc1] at hI
+      rw [hrun]
+      cases hct : classify fail (h.count + 1) (initSeq engs) <;> rw [hct] at hI
+      · obtain ⟨o', h', f1, f2, f3, f4, f5, f6, f7, f8⟩ := hI
+        rw [f1]
+        refine ⟨o', h', by simp, ⟨f3, fun hc => absurd hc f8⟩, f2, ?_, f6⟩
+        simp [f4, hc1, hcs]; omega
+      · obtain ⟨h', f1, f2⟩ := hI
+        rw [f1]
+        obtain ⟨L, eL, pL⟩ := delete_spec o.errState h' h.live (wf_errState o) (by simpa [Owns] using f2)
+        exact ⟨{ h' with live := L }, by simp [eL], pL⟩
+      · simp only [InitPost] at hI
+        rw [hI]
+        rfl
+    · have hcs : createSeq engs init = [siteCreate] := by simp only [createSeq, if_neg hi]
+      have hcl : classify fail h.count (createSeq engs init) = .allOk := by
+        simp [hcs, classify, hf']
+      rw [hcl]
+      refine ⟨o, h1, ?_, ?_, ?_, by simp [hh1, hcs], by simp [ho]⟩
+      · simp only [create, bind_apply, calloc_ok hf', derefLive, hb', if_true, if_neg hi]
+        rw [← hh1, ← ho]
+        rfl
+      · simp [Good, WF, ho]
+      · simp [Owns, Obj.blocks, ho, hh1]
+
+theorem clear_spec (fail : Nat → Bool) (o : Obj) (engs : List (List Site)) (h : Heap) (F : List Blk)
+    (g : Good o) (own : Owns o h F) (hn : o.numChannels ≠ 0) :
+    InitPost { o.zero with numChannels := o.numChannels } F (initSeq engs).length h
+      (clear fail o true engs h) (classify fail h.count (initSeq engs)) := by
+  have hself : o.self ∈ h.live := own.mem_iff.mpr (by simp [Obj.blocks])
+  obtain ⟨L, eL, pL⟩ := delete0_spec o h F g.1 own
+  let o1 : Obj := { o.zero with numChannels := o.numChannels }
+  have hfr : Fresh o1 := by simp [Fresh, o1, Obj.zero]
+  have hs1 : o1.self ∈ ({ h with live := L } : Heap).live := pL.mem_iff.mpr (by simp [o1, Obj.zero])
+  have hrun : clear fail o true engs h = initialise fail o1 engs { h with live := L } := by
+    simp only [clear, bind_apply, derefLive_ok hself, eL, if_true]
+    exact setIoRatio_fresh fail o1 engs _ hfr (by simpa [o1] using hn) hs1
+  rw [hrun]
+  exact initialise_spec fail o1 engs { h with live := L } F hfr (by simpa [o1, Obj.zero] using pL)
+
+theorem engRun_spec (fail : Nat → Bool) : ∀ (ss : List Site) (h : Heap),
+    match classify fail h.count (ss.map uncheck) with
+    | .allOk => ∃ h', engRun fail ss h = .ok () h' ∧ h'.live = h.live ∧ h'.count = h.count + ss.length
+    | .errAt _ _ => False
+    | .crashAt _ s => engRun fail ss h = .fault (.derefNull s.name)
+  | [], h => by simp [classify, engRun]
+  | s :: ss, h => by
+      by_cases hf : fail h.count = true
+      · simp [classify, hf, uncheck, engRun]
+      · have hf' : fail h.count = false := by simpa using hf
+        have hcl : classify fail h.count ((s :: ss).map uncheck) = classify fail (h.count + 1) (ss.map uncheck) := by
+          simp [classify, hf']
+        rw [hcl]
+        have key : ∀ h1 : Heap, h1.count = h.count + 1 → h1.live = h.live → engRun fail (s :: ss) h = engRun fail ss h1 →
+            match classify fail (h.count + 1) (ss.map uncheck) with
+            | .allOk => ∃ h', engRun fail (s :: ss) h = .ok () h' ∧ h'.live = h.live ∧ h'.count = h.count + (s :: ss).length
+            | .errAt _ _ => False
+            | .crashAt _ s' => engRun fail (s :: ss) h = .fault (.derefNull s'.name) := by
+          intro h1 hc hl heq
+          have ih := engRun_spec fail ss h1
+          rw [hc] at ih
+          rw [heq]
+          cases hct : classify fail (h.count + 1) (ss.map uncheck) <;> rw [hct] at ih
+          · obtain ⟨h', f1, f2, f3⟩ := ih
+            exact ⟨h', f1, by rw [f2, hl], by simp [f3]; omega⟩
+          · exact ih
+          · exact ih
+        cases hl : s.life
+        case static => exact key { h with count := h.count + 1, cache := h.count :: h.cache } rfl rfl (by simp [engRun, hf', hl])
+        all_goals exact key { h with count := h.count + 1 } rfl rfl (by simp [engRun, hf', hl])
+
+/-! ## Safety of every operation, for every oracle -/
+
+/-- What any API call of the model may do, whatever the oracle: keep the object good and exactly owned (reporting an
+error or not — and if not, no allocation call failed), or dereference the NULL of a failed allocation.  Never a double
+free, never a use after free. -/
+def OpPost (fail : Nat → Bool) (F : List Blk) (h : Heap) : Res (Bool × Obj) → Prop
+  | .ok (false, o') h' => Good o' ∧ Owns o' h' F ∧ h.count ≤ h'.count ∧ NoFail fail h.count h'.count
+  | .ok (true, o') h' => Good o' ∧ Owns o' h' F
+  | .fault (.derefNull _) => ∃ k, h.count ≤ k ∧ fail k = true
+  | .fault _ => False
+
+theorem initPost_opPost (fail : Nat → Bool) (o : Obj) (F : List Blk) (ss : List Site) (h : Heap)
+    (r : Res (Bool × Obj)) (hI : InitPost o F ss.length h r (classify fail h.count ss)) : OpPost fail F h r := by
+  cases hct : classify fail h.count ss <;> rw [hct] at hI
+  · obtain ⟨o', h', f1, f2, f3, f4, -, -, -, f8⟩ := hI
+    rw [f1]
+    exact ⟨⟨f3, fun hc => absurd hc f8⟩, f2, by omega, f4 ▸ classify_allOk fail ss h.count hct⟩
+  · obtain ⟨h', f1, f2⟩ := hI
+    rw [f1]
+    exact ⟨good_errState o, by simpa [Owns] using f2⟩
+  · obtain ⟨-, a2, a3, -, -⟩ := classify_crashAt fail ss h.count _ _ hct
+    simp only [InitPost] at hI
+    rw [hI]
+    exact ⟨_, a3, a2⟩
+
+theorem noFail_refl (fail : Nat → Bool) (c : Nat) : NoFail fail c c := fun k h1 h2 => by omega
+
+theorem setIoRatio_post (fail : Nat → Bool) (o : Obj) (engs : List (List Site)) (h : Heap) (F : List Blk)
+    (g : Good o) (own : Owns o h F) : OpPost fail F h (setIoRatio fail o engs h) := by
+  have hself : o.self ∈ h.live := own.mem_iff.mpr (by simp [Obj.blocks])
+  cases herr : o.error
+  case true => simp [setIoRatio, derefLive_ok hself, herr, OpPost, g, own]
+  case false =>
+    by_cases hn : o.numChannels = 0
+    · simp [setIoRatio, derefLive_ok hself, herr, hn, OpPost, g, own]
+    · cases hcp : o.channelPtrs with
+      | some cp =>
+        simp [setIoRatio, derefLive_ok hself, herr, hn, hcp, OpPost, g, own, noFail_refl]
+      | none =>
+        obtain ⟨h1, h2, h3⟩ := g.2 hcp
+        have hfr : Fresh o := ⟨herr, hcp, h1, h2, h3⟩
+        rw [setIoRatio_fresh fail o engs h hfr hn hself]
+        have hp : h.live.Perm (o.self :: F) := by
+          have := own; rw [Owns, g.blocks_of_none hcp] at this; simpa using this
+        exact initPost_opPost fail o F (initSeq engs) h _ (initialise_spec fail o engs h F hfr hp)
+
+theorem setNumChannels_post (fail : Nat → Bool) (o : Obj) (engs : List (List Site)) (h : Heap) (F : List Blk)
+    (g : Good o) (own : Owns o h F) : OpPost fail F h (setNumChannels fail o engs h) := by
+  have hself : o.self ∈ h.live := own.mem_iff.mpr (by simp [Obj.blocks])
+  by_cases h1 : engs.length = o.numChannels
+  · cases herr : o.error <;> simp [setNumChannels, derefLive_ok hself, h1, herr, OpPost, g, own, noFail_refl]
+  · by_cases h2 : engs.length = 0
+    · simp only [setNumChannels, bind_apply, derefLive_ok hself, if_neg h1, if_pos h2]
+      exact ⟨g, own⟩
+    · cases h3 : o.resamplers with
+      | some r => simp [setNumChannels, derefLive_ok hself, h1, h2, h3, OpPost, g, own]
+      | none =>
+        have : setNumChannels fail o engs h = setIoRatio fail { o with numChannels := engs.length } engs h := by
+          simp [setNumChannels, derefLive_ok hself, h1, h2, h3]
+        rw [this]
+        exact setIoRatio_post fail _ engs h F g own
+
+theorem clear_post (fail : Nat → Bool) (o : Obj) (reset : Bool) (engs : List (List Site)) (h : Heap) (F : List Blk)
+    (g : Good o) (own : Owns o h F) : OpPost fail F h (clear fail o reset engs h) := by
+  have hself : o.self ∈ h.live := own.mem_iff.mpr (by simp [Obj.blocks])
+  obtain ⟨L, eL, pL⟩ := delete0_spec o h F g.1 own
+  have own1 : Owns { o.zero with numChannels := o.numChannels } { h with live := L } F := by
+    simpa [Owns, Obj.blocks, Obj.zero] using pL
+  cases reset
+  · simp [clear, derefLive_ok hself, eL, OpPost, good_zero, own1, noFail_refl]
+  · have : clear fail o true engs h = setIoRatio fail { o.zero with numChannels := o.numChannels } engs { h with live := L } := by
+      simp [clear, derefLive_ok hself, eL]
+    rw [this]
+    exact setIoRatio_post fail _ engs { h with live := L } F (good_zero o _) own1
+
+theorem process_post (fail : Nat → Bool) (o : Obj) (ss : List Site) (h : Heap) (F : List Blk)
+    (g : Good o) (own : Owns o h F) : OpPost fail F h (process fail o ss h) := by
+  have hself : o.self ∈ h.live := own.mem_iff.mpr (by simp [Obj.blocks])
+  cases herr : o.error
+  case true => simp [process, derefLive_ok hself, herr, OpPost, g, own]
+  case false =>
+    have hE := engRun_spec fail ss h
+    cases hct : classify fail h.count (ss.map uncheck) <;> rw [hct] at hE
+    · obtain ⟨h', f1, f2, f3⟩ := hE
+      have hnf := classify_allOk fail _ h.count hct
+      simp only [List.length_map] at hnf
+      simp only [process, bind_apply, derefLive_ok hself, herr, Bool.false_eq_true, if_false, f1, pure_apply]
+      exact ⟨g, by simpa [Owns, f2] using own, by omega, f3 ▸ hnf⟩
+    · exact hE.elim
+    · obtain ⟨-, a2, a3, -, -⟩ := classify_crashAt fail _ h.count _ _ hct
+      simp only [process, bind_apply, derefLive_ok hself, herr, Bool.false_eq_true, if_false, hE]
+      exact ⟨_, a3, a2⟩
+
+theorem runOp_post (fail : Nat → Bool) (o : Obj) (op : Op) (h : Heap) (F : List Blk)
+    (g : Good o) (own : Owns o h F) : OpPost fail F h (runOp fail o op h) := by
+  cases op with
+  | process ss => exact process_post fail o ss h F g own
+  | clear r e => exact clear_post fail o r e h F g own
+  | setRatio e => exact setIoRatio_post fail o e h F g own
+  | setChannels e => exact setNumChannels_post fail o e h F g own
+
+def OpsPost (fail : Nat → Bool) (F : List Blk) (h : Heap) : Res (Obj × Option (Nat × Nat)) → Prop
+  | .ok (o', none) h' => Good o' ∧ Owns o' h' F ∧ h.count ≤ h'.count ∧ NoFail fail h.count h'.count
+  | .ok (o', some _) h' => Good o' ∧ Owns o' h' F
+  | .fault (.derefNull _) => ∃ k, h.count ≤ k ∧ fail k = true
+  | .fault _ => False
+
+theorem noFail_trans {fail : Nat → Bool} {a b c : Nat} (h1 : NoFail fail a b) (h2 : NoFail fail b c) : NoFail fail a c :=
+  fun k ha hc => by
+    by_cases hb : k < b
+    · exact h1 k ha hb
+    · exact h2 k (by omega) hc
+
+theorem runOps_post (fail : Nat → Bool) (F : List Blk) : ∀ (ops : List Op) (o : Obj) (i : Nat) (h : Heap),
+    Good o → Owns o h F → OpsPost fail F h (runOps fail o ops i h)
+  | [], o, i, h, g, own => by simp [runOps, OpsPost, g, own, noFail_refl]
+  | op :: ops, o, i, h, g, own => by
+      have hP := runOp_post fail o op h F g own
+      simp only [runOps, bind_apply]
+      cases hr : runOp fail o op h with
+      | fault f =>
+        rw [hr] at hP
+        cases f <;> simp_all [OpPost, OpsPost]
+      | ok a h' =>
+        rw [hr] at hP
+        obtain ⟨err, o'⟩ := a
+        cases err
+        · obtain ⟨g', own', hle, hnf⟩ := hP
+          simp only [Bool.false_eq_true, if_false]
+          have ih := runOps_post fail F ops o' (i + 1) h' g' own'
+          cases hr2 : runOps fail o' ops (i + 1) h' with
+          | fault f =>
+            rw [hr2] at ih
+            cases f with
+            | derefNull s => obtain ⟨k, k1, k2⟩ := ih; exact ⟨k, by omega, k2⟩
+            | derefDead b => exact ih.elim
+            | badFree b => exact ih.elim
+          | ok a2 h2 =>
+            rw [hr2] at ih
+            obtain ⟨o2, r2⟩ := a2
+            cases r2 with
+            | none =>
+              obtain ⟨i1, i2, i3, i4⟩ := ih
+              exact ⟨i1, i2, by omega, noFail_trans hnf i4⟩
+            | some x => exact ih
+        · obtain ⟨g', own'⟩ := hP
+          simp [OpsPost, g', own']
+
+/-- The whole job, any oracle: either the NULL of a failed allocation is dereferenced (an unchecked site), or the job
+ends with exactly the blocks live that were live before it started — and if no call reported an error, no allocation
+call failed. -/
+def JobPost (fail : Nat → Bool) (h : Heap) : Res Verdict → Prop
+  | .ok v h' => h'.live.Perm h.live ∧
+      match v with
+      | .completed m => m = h.live.length ∧ NoFail fail h.count h'.count
+      | .createFailed n => n = h.live.length
+      | .opFailed _ _ m => m = h.live.length
+  | .fault (.derefNull _) => ∃ k, h.count ≤ k ∧ fail k = true
+  | .fault _ => False
+
+theorem runJob_post (fail : Nat → Bool) (j : Job) (h : Heap) : JobPost fail h (runJob fail j h) := by
+  have hC := create_spec fail j.engs j.init h
+  cases hct : classify fail h.count (createSeq j.engs j.init) <;> rw [hct] at hC
+  · obtain ⟨o, h1, f1, g, own, hc, -⟩ := hC
+    have hnf1 : NoFail fail h.count h1.count := hc ▸ classify_allOk fail _ h.count hct
+    have hO := runOps_post fail h.live j.ops o 0 h1 g own
+    simp only [runJob, bind_apply, f1]
+    cases hr : runOps fail o j.ops 0 h1 with
+    | fault f =>
+      rw [hr] at hO
+      cases f with
+      | derefNull s => obtain ⟨k, k1, k2⟩ := hO; exact ⟨k, by omega, k2⟩
+      | derefDead b => exact hO.elim
+      | badFree b => exact hO.elim
+    | ok a h2 =>
+      rw [hr] at hO
+      obtain ⟨o2, r2⟩ := a
+      cases r2 with
+      | none =>
+        obtain ⟨g2, own2, hle, hnf2⟩ := hO
+        obtain ⟨L, eL, pL⟩ := delete_spec o2 h2 h.live g2.1 own2
+        simp only [bind_apply, eL, liveCount_apply, pure_apply]
+        exact ⟨pL, pL.length_eq, noFail_trans hnf1 hnf2⟩
+      | some x =>
+        obtain ⟨g2, own2⟩ := hO
+        obtain ⟨i, n⟩ := x
+        -- the object in error state is poked once more, then deleted
+        have hP := process_post fail o2 [] h2 h.live g2 own2
+        simp only [bind_apply]
+        cases hp : process fail o2 [] h2 with
+        | fault f =>
+          rw [hp] at hP
+          have : process fail o2 [] h2 ≠ .fault f := by
+            have hself : o2.self ∈ h2.live := own2.mem_iff.mpr (by simp [Obj.blocks])
+            cases he : o2.error <;> simp [process, derefLive_ok hself, he, engRun]
+          exact absurd hp this
+        | ok a3 h3 =>
+          rw [hp] at hP
+          obtain ⟨e3, o3⟩ := a3
+          have hgo : Good o3 ∧ Owns o3 h3 h.live := by
+            cases e3
+            · exact ⟨hP.1, hP.2.1⟩
+            · exact hP
+          obtain ⟨L, eL, pL⟩ := delete_spec o3 h3 h.live hgo.1.1 hgo.2
+          simp only [eL, liveCount_apply, pure_apply]
+          exact ⟨pL, pL.length_eq⟩
+  · obtain ⟨h1, f1, pL⟩ := hC
+    simp only [runJob, bind_apply, f1, liveCount_apply, pure_apply]
+    exact ⟨pL, pL.length_eq⟩
+  · obtain ⟨-, a2, a3, -, -⟩ := classify_crashAt fail _ h.count _ _ hct
+    simp only [CreatePost] at hC
+    simp only [runJob, bind_apply, hC]
+    exact ⟨_, a3, a2⟩
+
+/-! ## Corollaries used by the property file -/
+
+/-- `soxr_delete0` on an object that `fatal_error` has just torn down frees nothing at all: the heap is untouched. -/
+theorem delete0_errState (o : Obj) (h : Heap) (hself : o.self ∈ h.live) :
+    delete0 o.errState h = .ok o.zero h := by
+  simp [delete0, Obj.errState, Obj.zero, derefLive_ok hself]
+
+theorem mem_loopSeq : ∀ (engs : List (List Site)) (s : Site), s ∈ loopSeq engs → s = siteChan ∨ ∃ e ∈ engs, s ∈ e
+  | [], s, hs => by simp [loopSeq] at hs
+  | e :: es, s, hs => by
+      simp only [loopSeq, List.mem_cons, List.mem_append] at hs
+      rcases hs with h1 | h2 | h3
+      · exact Or.inl h1
+      · exact Or.inr ⟨e, by simp, h2⟩
+      · rcases mem_loopSeq es s h3 with h4 | ⟨e', he', hs'⟩
+        · exact Or.inl h4
+        · exact Or.inr ⟨e', by simp [he'], hs'⟩
+
+theorem mem_createSeq (engs : List (List Site)) (init : Bool) (s : Site) (hs : s ∈ createSeq engs init) :
+    s = siteCreate ∨ s = siteChannelPtrs ∨ s = siteShared ∨ s = siteResamplers ∨ s = siteChan ∨ ∃ e ∈ engs, s ∈ e := by
+  simp only [createSeq, List.mem_cons] at hs
+  rcases hs with h1 | h2
+  · exact Or.inl h1
+  · split at h2
+    · simp only [initSeq, List.mem_cons] at h2
+      rcases h2 with h | h | h | h
+      · exact Or.inr (Or.inl h)
+      · exact Or.inr (Or.inr (Or.inl h))
+      · exact Or.inr (Or.inr (Or.inr (Or.inl h)))
+      · exact Or.inr (Or.inr (Or.inr (Or.inr (mem_loopSeq engs s h))))
+    · simp at h2
+
 end Soxr.Alloc
